@@ -82,6 +82,8 @@ namespace
     std::string field_name(std::int64_t f) { return "f" + std::to_string(f); }
     std::int64_t field_id(const char *s) { return s != nullptr && s[0] == 'f' ? std::stoll(std::string{s + 1}) : -1; }
     std::string bundle_name(std::int64_t n) { return "hgvB" + std::to_string(g_case) + "_" + std::to_string(n); }
+    std::string scalar_bundle_name(std::int64_t n) { return "S" + std::to_string(g_case) + "_" + std::to_string(n); }
+
     std::int64_t bundle_id(const char *s)
     {
         if (s == nullptr) { return 0; }
@@ -113,6 +115,18 @@ namespace
                 const auto *k = parse_sty(c);
                 const auto *v = parse_sty(c);
                 return r.map(k, v);
+            }
+            case 7:
+            {
+                // named (nominal) scalar Bundle with its declared parents, in declaration order; every bundle of the
+                // harness has the one field {id: int}; same id = same ancestry within a case (generator invariant)
+                const std::int64_t id = c.next();
+                if (id < 0) { throw Malformed("bundle id"); }
+                const std::size_t                      n = c.count();
+                std::vector<const ValueTypeMetaData *> parents;
+                for (std::size_t k = 0; k < n; ++k) { parents.push_back(parse_sty(c)); }
+                const std::vector<std::pair<std::string, const ValueTypeMetaData *>> fields{{"id", atom(1)}};
+                return r.bundle("hgv", scalar_bundle_name(id), fields, parents);
             }
         }
         throw Malformed("sty");
@@ -181,6 +195,19 @@ namespace
                 return;
             case ValueTypeKind::Set: o.push_back(4); enc_sty(m->element_type, o); return;
             case ValueTypeKind::Map: o.push_back(5); enc_sty(m->key_type, o); enc_sty(m->element_type, o); return;
+            case ValueTypeKind::Bundle:
+                if (m->is_named_bundle() && m->bundle_hierarchy != nullptr)
+                {
+                    const std::string local{m->bundle_local_name()};
+                    const auto        p = local.rfind('_');
+                    o.push_back(7);
+                    o.push_back(p == std::string::npos ? -1 : std::stoll(local.substr(p + 1)));
+                    o.push_back(static_cast<std::int64_t>(m->bundle_hierarchy->parents.size()));
+                    for (const ValueTypeMetaData *parent : m->bundle_hierarchy->parents) { enc_sty(parent, o); }
+                    return;
+                }
+                o.push_back(-3);
+                return;
             default: o.push_back(-3); return;
         }
     }
@@ -365,6 +392,7 @@ namespace
         std::vector<std::vector<std::size_t>>  orders;
         std::vector<Query>                     queries;
         std::vector<std::vector<Bind>>         bind_scripts;
+        std::vector<std::pair<const ValueTypeMetaData *, const ValueTypeMetaData *>> probes;
     };
 
     Bind parse_bind(Cur &c)
@@ -492,6 +520,13 @@ namespace
                         q.args.push_back(std::move(a));
                     }
                     s.queries.push_back(std::move(q));
+                    break;
+                }
+                case 8:
+                {
+                    const ValueTypeMetaData *cand = parse_sty(c);
+                    const ValueTypeMetaData *base = parse_sty(c);
+                    s.probes.emplace_back(cand, base);
                     break;
                 }
                 case 7:
@@ -633,6 +668,21 @@ namespace
         {
             out.line({98});   // the type registry refused a type of the case (generator bug)
             return;
+        }
+
+        // direct probes of the inheritance queries the dispatcher relies on
+        for (std::size_t k = 0; k < s.probes.size(); ++k)
+        {
+            auto      &registry = TypeRegistry::instance();
+            const auto [cand, base] = s.probes[k];
+            const auto d            = registry.bundle_inheritance_distance(cand, base);
+            out.line({59, static_cast<std::int64_t>(k), registry.bundle_is_a(cand, base) ? 1 : 0,
+                      d.has_value() ? static_cast<std::int64_t>(*d) : -1});
+        }
+        // static rank of every overload as registration computes it
+        for (std::size_t i = 0; i < s.ovs.size(); ++i)
+        {
+            out.line({56, static_cast<std::int64_t>(i), operator_dispatch_detail::operator_rank(s.ovs[i].params)});
         }
 
         // ResolutionMap scripts (bind rejects an inconsistent re-binding)
